@@ -174,8 +174,10 @@ fn check_archive(k: usize, pops: &[Vec<TInd>], target: &[TInd], each: bool) -> O
     let mut st = state_with::<TagP>(vec![vec![]]);
     let upd = ElitistArchiveUpdate::new::<TagP>(k);
     let ctx = |w: String| format!("elitist archive of capacity {} shown populations {:?}{}: {}", k, pops, if each { " (re-inserted after every update)" } else { "" }, w);
-    if let Err(e) = upd.init(&TagP, &mut st) {
-        return Some(("C07 ElitistArchive init".into(), ctx(format!("{:#}", e))));
+    match catch(|| upd.init(&TagP, &mut st)) {
+        Err(pn) => return Some(("C07 ElitistArchive init-panic".into(), ctx(pn))),
+        Ok(Err(e)) => return Some(("C07 ElitistArchive init".into(), ctx(format!("{:#}", e)))),
+        _ => {}
     }
     let mut shown: Vec<TInd> = vec![];
     for (step, p) in pops.iter().enumerate() {
@@ -215,12 +217,14 @@ fn check_archive(k: usize, pops: &[Vec<TInd>], target: &[TInd], each: bool) -> O
     None
 }
 
+const HUGE: [usize; 6] = [usize::MAX, usize::MAX / 2, isize::MAX as usize + 1, 1usize << 32, u32::MAX as usize, 1usize << 31];
+
 pub fn run_part_a(rep: &mut Report) {
     let thorough = rep.tier == Tier::Thorough;
     rep.alpha("BestIndividual::update over all candidate sequences of length <= 4 (quick) / 5 (thorough) on objectives {0,1,2,+inf}, and <= 3 on {0.0,-0.0,1e-17}, with distinct solutions (ties = different solution, equal objective)");
     rep.alpha("BestIndividualUpdate executed 2..3 times on one state with the population exchanged in between and the evaluation counter absent / unchanged");
     rep.alpha("BestIndividualUpdate on every population of size 0..3 over the grid x previous best in {none, 0, 1, 2, +inf}");
-    rep.alpha("ElitistArchiveUpdate over all sequences of <= 2 (quick) / 3 (thorough) populations of size <= 2 x capacity 0..4, with ElitistArchiveIntoPopulation into {empty, first shown population, unrelated population} after the last or after every update");
+    rep.alpha("ElitistArchiveUpdate over all sequences of <= 2 (quick) / 3 (thorough) populations of size <= 2 x capacity 0..4 and capacities 2^31, 2^32-1, 2^32, 2^63, 2^63-1, 2^64-1 (unbounded), with ElitistArchiveIntoPopulation into {empty, first shown population, unrelated population} after the last or after every update");
     let mut p = Part::new("best.update-sequences");
     let len = if thorough { 5 } else { 4 };
     p.bound("max_sequence_length", len as u64);
@@ -322,7 +326,7 @@ pub fn run_part_a(rep: &mut Report) {
         cases.push(vec![extra.clone(), extra.clone()]);
         cases.push(vec![extra.clone(), vec![(20, 2.0), (21, f64::INFINITY)]]);
     }
-    p.bound("population_sequences", cases.len() as u64).bound("capacities", 5);
+    p.bound("population_sequences", cases.len() as u64).bound("capacities", 5).bound("unbounded_capacities", HUGE.len() as u64);
     let res: Vec<Vec<(String, String, Value)>> = cases
         .par_iter()
         .map(|seq| {
@@ -351,6 +355,32 @@ pub fn run_part_a(rep: &mut Report) {
             p.violate(s, d, v);
         }
     }
+    // capacities that stand for "unbounded", each case in a process of its own (a failed allocation aborts)
+    let small: Vec<Vec<Vec<TInd>>> = vec![vec![vec![(0, 2.0), (1, 0.0)]], vec![vec![(0, 1.0)], vec![(10, 0.0), (11, 3.0)]]];
+    let jobs: Vec<(usize, &Vec<Vec<TInd>>)> = HUGE.iter().flat_map(|k| small.iter().map(move |s| (*k, s))).collect();
+    let res: Vec<(Value, crate::engine::util::Isolated)> = jobs
+        .par_iter()
+        .map(|(k, seq)| {
+            let case = json!({"kind": "archive", "k": *k as u64, "pops": seq.iter().map(|p| jv(p)).collect::<Vec<_>>(), "target": jv(&[]), "each": seq.len() > 1});
+            let r = crate::engine::util::isolated_replay("C07", &case, 16_000_000, std::time::Duration::from_secs(60));
+            (case, r)
+        })
+        .collect();
+    for (case, r) in res {
+        p.states += 1;
+        p.traces += 1;
+        p.transitions += 4;
+        match r {
+            crate::engine::util::Isolated::Holds => p.outcome("unbounded-capacity-ok"),
+            crate::engine::util::Isolated::Violations(v) => {
+                for (sg, d) in v {
+                    p.violate(sg, d, case.clone());
+                }
+            }
+            crate::engine::util::Isolated::Crashed(w) => p.violate("C07 ElitistArchive k=unbounded process-dies", format!("elitist archive of capacity {} shown {}: {}", case["k"], case["pops"], w), json!({"isolated": case})),
+            crate::engine::util::Isolated::Machinery(m) => p.machinery(format!("isolated archive case: {}", m)),
+        }
+    }
     p.outcome("archive-full");
     p.outcome("archive-not-full");
     p.sample(json!({"capacity": 2, "shown": [[[0, 2.0], [1, 0.0]], [[10, 1.0]]], "expected_archive_values": [0.0, 1.0]}));
@@ -358,6 +388,15 @@ pub fn run_part_a(rep: &mut Report) {
 }
 
 pub fn replay_a(case: &Value) -> Result<Vec<(String, String)>, String> {
+    if case["isolated"].is_object() {
+        let inner = &case["isolated"];
+        return match crate::engine::util::isolated_replay("C07", inner, 16_000_000, std::time::Duration::from_secs(60)) {
+            crate::engine::util::Isolated::Holds => Ok(vec![]),
+            crate::engine::util::Isolated::Violations(v) => Ok(v),
+            crate::engine::util::Isolated::Crashed(w) => Ok(vec![("C07 ElitistArchive k=unbounded process-dies".into(), format!("elitist archive of capacity {} shown {}: {}", inner["k"], inner["pops"], w))]),
+            crate::engine::util::Isolated::Machinery(m) => Err(m),
+        };
+    }
     if case["kind"].as_str() == Some("bswap") {
         let pops: Vec<Vec<TInd>> = case["pops"].as_array().ok_or("no pops")?.iter().map(pj).collect();
         return Ok(check_update_on_exchanged_populations(&pops, case["counter"].as_u64().map(|c| c as u32)).into_iter().collect());
